@@ -314,6 +314,14 @@ def violate(rng, reg, mb):
         m2 = put(mb, 9 + 6 * k, 14 + 6 * k, code)
         if (m2 & ((1 << 48) - 1)) != 0:
             yield ("illegal-character-code%d-at%d" % (code, k), m2)
+        # several / all positions illegal (one repeated code, or mixed): only the all-zero field is the "no identification" case
+        nbad = rng.choice((2, 4, 7, 8, 8))
+        m3 = mb
+        same = rng.choice(illegal)
+        for kk in rng.sample(range(8), nbad):
+            m3 = put(m3, 9 + 6 * kk, 14 + 6 * kk, same if rng.random() < 0.5 else rng.choice(illegal))
+        if (m3 & ((1 << 48) - 1)) != 0:
+            yield ("illegal-character-codes-at-%d-positions" % nbad, m3)
     if reg == "BDS30":
         yield ("threat-type-3", put(mb, 29, 30, 3))
     if reg == "BDS44":
